@@ -351,10 +351,51 @@ func (g *Gen) generate(size int, withTest bool) ([]SrcFile, bool) {
 				g.add(-1, fmt.Sprintf("func cyig%d[T %s, U interface{ cyput(T) }](u U) {}", c, cons[c]))
 			}
 		}
-		arg := strings.TrimPrefix(cons[r.Intn(nI)], "~")
+		pick := r.Intn(nI)
+		arg := strings.TrimPrefix(cons[pick], "~")
 		g.add(-1, "type cyn struct{}")
-		g.add(-1, fmt.Sprintf("func (cyn) cyput(x %s) {}", arg))
-		g.add(-1, "var _ cyn")
+		if r.Bool() {
+			g.add(-1, fmt.Sprintf("func (cyn) cyput(x %s) {}", arg))
+			g.add(-1, "var _ cyn")
+		} else {
+			// the satisfying type is used ONLY through the matching interface, which is never instantiated explicitly
+			// (through another type parameter and inference): deleting cyput must not be suggested
+			g.add(-1, fmt.Sprintf("type cyisink[T %s] interface {\n\tcyput(T)\n}", cons[pick]))
+			g.add(-1, fmt.Sprintf("func cyfeed[T %s, K cyisink[T]](k K) {}", cons[pick]))
+			g.add(-1, fmt.Sprintf("func (*cyn) cyput(x %s) {}", arg))
+			g.add(-1, fmt.Sprintf("func CyFeedUse() {\n\tcyfeed[%s](&cyn{})\n}", arg))
+		}
+	}
+	// interface literals over function-local aliases of the same name but different meaning
+	if r.Chance(35) {
+		g.add(-1, "func CyLocA() {\n\ttype cyunit = int\n\tvar x interface{ cyset(cyunit) }\n\t_ = x\n}")
+		g.add(-1, "func CyLocB() {\n\ttype cyunit = string\n\tvar x interface{ cyset(cyunit) } = &cycell{}\n\t_ = x\n}")
+		g.add(-1, "type cycell struct{}")
+		g.add(-1, "func (*cycell) cyset(s string) {}")
+	}
+	// the same struct type in unkeyed literals at several sites, some of them in dead objects; fields referenced
+	// nowhere else
+	if r.Chance(50) {
+		g.add(-1, "type cyuk struct {\n\tcyuka int\n\tcyukb string\n}")
+		nd := 1 + r.Intn(3)
+		for i := 0; i < nd; i++ {
+			switch r.Intn(3) {
+			case 0:
+				g.add(-1, fmt.Sprintf("func cyukdead%d() {\n\t_ = cyuk{%d, \"d\"}\n}", i, i))
+			case 1:
+				g.add(-1, fmt.Sprintf("var cyuktab%d = []cyuk{{%d, \"t\"}, {7, \"u\"}}", i, i))
+			default:
+				g.add(-1, fmt.Sprintf("func cyukouter%d() {\n\tcyukinner%d()\n}", i, i))
+				g.add(-1, fmt.Sprintf("func cyukinner%d() {\n\t_ = func() cyuk { return cyuk{%d, \"c\"} }\n}", i, i))
+			}
+		}
+		if r.Chance(85) {
+			if r.Bool() {
+				g.add(-1, "func CyUkLive() cyuk {\n\treturn cyuk{9, \"live\"}\n}")
+			} else {
+				g.add(-1, "var _ = cyuk{8, \"live\"}")
+			}
+		}
 	}
 	// embedding through type aliases of types with pointer-receiver methods (by value and by pointer, one and two
 	// levels, alias of a generic instance); the outer type has no pointer method of its own and is used only through an
@@ -1263,6 +1304,71 @@ type outer struct {
 }
 
 func Use() interface{ m() } { return &outer{} }
+`}},
+		// an unkeyed literal in dead code comes first, a live one later: the fields are used by the live literal
+		"unkeyeddeadfirst": {{Name: "a.go", Src: `package p
+
+type row struct {
+	id   int
+	name string
+}
+
+func dead() {
+	_ = row{1, "a"}
+}
+
+var deadTable = []row{{2, "b"}}
+
+func deadOuter() { deadInner() }
+
+func deadInner() { _ = row{3, "c"} }
+
+func Live() row {
+	return row{4, "d"}
+}
+`}},
+		// identically spelled generic interfaces, never instantiated explicitly; *names satisfies only the LATER one and
+		// is used only through it
+		"samespellingsink": {{Name: "a.go", Src: `package p
+
+type intSink[T ~int] interface {
+	put(T)
+}
+
+type strSink[T ~string] interface {
+	put(T)
+}
+
+func drainInts[T ~int, K intSink[T]](k K) {}
+
+func feed[T ~string, K strSink[T]](k K) {}
+
+type names struct{}
+
+func (*names) put(s string) {}
+
+func Use() {
+	feed[string](&names{})
+}
+`}},
+		// interface literals over local aliases with the same name and different meaning
+		"samespellinglocal": {{Name: "a.go", Src: `package p
+
+func A() {
+	type unit = int
+	var x interface{ set(unit) }
+	_ = x
+}
+
+func B() {
+	type unit = string
+	var x interface{ set(unit) } = &cell{}
+	_ = x
+}
+
+type cell struct{}
+
+func (*cell) set(s string) {}
 `}},
 		// unkeyed literals with the &T elided: every field of T is used by the literal
 		"elidedptr": {{Name: "a.go", Src: `package p
